@@ -89,7 +89,47 @@ def _drop_all(m):
     raise ValueError('drop_payload shape not recognised')
 
 
-EXTRA = [
+_WIDTH = {'u8': 1, 'u16': 2, 'u32': 4, 'u64': 8, 'u128': 16, 'Header': 8, '[u8; 20]': 20, 'SerialQueryPayload': 4}
+
+
+def _struct_size(name):
+    rx = r'#\[repr\(C, packed\)\]\s*(?:#\[allow\(dead_code\)\]\s*)?(?:pub )?struct ' + name + r' \{([^}]*)\}'
+    def f(m):
+        total = 0
+        for line in m.group(1).split('\n'):
+            line = line.split('//')[0].strip().rstrip(',')
+            if not line:
+                continue
+            ty = line.split(':', 1)[1].strip()
+            total += _WIDTH[ty]
+        return total
+    return rx, f
+
+
+def _pdu_const(name):
+    return r'impl ' + name + r' \{\s*(?:///[^\n]*\n\s*)*pub const PDU: u8 = (\d+);'
+
+
+_RTR = []
+for _n, _lean in [('SerialNotify', 'SerialNotify'), ('SerialQuery', 'SerialQuery'), ('ResetQuery', 'ResetQuery'),
+                  ('CacheResponse', 'CacheResponse'), ('Ipv4Prefix', 'Ipv4Prefix'), ('Ipv6Prefix', 'Ipv6Prefix'),
+                  ('EndOfDataV0', 'EndOfDataV0'), ('EndOfDataV1', 'EndOfDataV1'), ('CacheReset', 'CacheReset')]:
+    _rx, _f = _struct_size(_n)
+    _RTR.append(('size' + _lean, PDU, _rx, _f, ['C07', 'C08', 'C06']))
+    _RTR.append(('pdu' + _lean, PDU, _pdu_const(_n), 'nat', ['C07', 'C08', 'C06']))
+for _n, _lean in [('RouterKeyFixed', 'RouterKeyFixed'), ('AspaFixed', 'AspaFixed'), ('Header', 'Header')]:
+    _rx, _f = _struct_size(_n)
+    _RTR.append(('size' + _lean, PDU, _rx, _f, ['C07', 'C08', 'C06']))
+_RTR.append(('pduRouterKey', PDU, _pdu_const('RouterKey'), 'nat', ['C07', 'C06']))
+_RTR.append(('pduAspa', PDU, _pdu_const('Aspa'), 'nat', ['C07', 'C06']))
+_RTR.append(('pduError', PDU, _pdu_const('Error'), 'nat', ['C07', 'C08', 'C06']))
+_RTR.append(('pduEndOfData', PDU, _pdu_const('EndOfData'), 'nat', ['C07', 'C06']))
+_RTR.append(('skipBufSize', PDU, r'pub async fn skip_payload<[\s\S]*?let mut buf = \[0u8; (\d+)\];', 'nat', ['C07']))
+_RTR.append(('skipEofChecked', PDU, r'pub async fn skip_payload<([\s\S]*?)\n    \}',
+             lambda m: bool(re.search(r'if read == 0', m.group(1))), ['C07']))
+
+
+EXTRA = _RTR + [
     # ---- C15
     ('slurmDropAllKinds', SLURM, r'impl ValidationOutputFilters \{[\s\S]*?pub fn drop_payload\(&self, payload: &rtr::Payload\) -> bool \{([\s\S]*?)\n    \}', _drop_all, ['C15']),
     ('aspaMaxCount', PDU, r'impl ProviderAsns \{[\s\S]*?pub const MAX_COUNT: usize = (\d+);', 'nat', ['C15', 'C07', 'C06']),
